@@ -112,7 +112,7 @@ NS = 'xmlns="http://www.w3.org/2005/07/scxml" version="1.0" datamodel="null"'
 
 def scenario(rng):
     """-> (name, parent document, api operations, oracle(tokens) -> None | reason)"""
-    k = rng.choice(["finishes", "never", "on-event", "ticks", "autoforward", "finalize", "to-child", "reenter"])
+    k = rng.choice(["finishes", "never", "on-event", "ticks", "autoforward", "finalize", "to-child", "reenter", "nested", "nested"])
     blk = lambda n: ",".join(["b:%d" % rng.choice([5, 20, 40]), "q"] * n)
     if k == "finishes":        # the child reaches its final state at once: done.invoke exactly once
         child = '<scxml %s><final id="f"/></scxml>' % NS
@@ -173,6 +173,23 @@ def scenario(rng):
         def oracle(t):
             rs = [x for x in t if x.startswith("bpe:r.")]
             if rs != ["bpe:r.1", "bpe:r.2", "bpe:r.1"]: return "answers of the child: %s" % rs
+    elif k == "nested":        # the child invokes a grandchild; cancelling the child must cancel both and return
+        grand = '<scxml %s><state id="g"><onentry><send target="#_parent" event="g.up"/></onentry></state></scxml>' % NS
+        mode = rng.choice(["leave", "leave", "child-finishes"])
+        child_fin = '<transition event="stop" target="cf"/>' if mode == "child-finishes" else ""
+        child = ('<scxml %s><state id="c"><invoke type="scxml" id="g1"><content>%s</content></invoke><transition event="g.up"><send target="#_parent" event="c.up"/></transition>%s</state><final id="cf"/></scxml>'
+                 % (NS, grand.replace("<", "&lt;").replace(">", "&gt;").replace('"', "&quot;") if False else grand, child_fin))
+        doc = ('<scxml %s><state id="a"><invoke type="scxml" id="c1"><content>%s</content></invoke><transition event="leave" target="b"/><transition event="c.up"/>'
+               '<transition event="go"><send target="#_c1" event="stop"/></transition><transition event="done.invoke.c1" target="b"/></state><state id="b"><transition event="c"/><transition event="g"/></state></scxml>' % (NS, child))
+        ops = "q,%s,%s,q,%s,w:80,q,g,w:60,q" % (blk(rng.randint(1, 3)), "e:leave" if mode == "leave" else "e:go", blk(2))
+        def oracle(t):
+            if t.count("bi:c1") != 1 or t.count("bu:c1") != 1: return "the child was started %d times and cancelled %d times" % (t.count("bi:c1"), t.count("bu:c1"))
+            if "au:c1" not in t: return "the cancellation of the child (which has an invocation of its own) never returned"
+            n = t.count("bpe:done.invoke.c1")
+            if mode == "leave" and n: return "done.invoke for a child that was cancelled"
+            if mode != "leave" and n != 1: return "done.invoke.c1 processed %d times after the child was told to finish" % n
+            cfgs = [x for x in t if x.startswith("cfg:")]
+            if not cfgs or "b" not in cfgs[-1][4:].split(","): return "parent did not end in state b: %s" % (cfgs[-1] if cfgs else "-")
     else:                      # exit and re-entry: the old child is cancelled, a new one started, each once
         child = '<scxml %s><state id="s"><onentry><send target="#_parent" event="hello"/></onentry></state></scxml>' % NS
         doc = ('<scxml %s><state id="a"><invoke type="scxml" id="c1"><content>%s</content></invoke><transition event="again" target="a"/><transition event="hello"/></state></scxml>' % (NS, child))
@@ -224,8 +241,8 @@ def run(ctx):
     ctx.coverage["evaluations"] = s1["inputs"] + ctx.coverage["suites"]["invoke-threads"]["inputs"]
     ctx.coverage["distinct_nontrivial"] = s1["invocations"]
     ctx.coverage["rule"] = ("random charts of 3-8 states (finals with p=0.35 so that runs finish, loops so that invoking states are left and re-entered) in which 40% of the proper states invoke an idle child session, "
-                            "x 1-5 external events, both engines, ASan build; non-trivial = invocations started; plus 8 parent/child scenarios with real child sessions (child finishing at once / on request / never, "
-                            "a child that keeps sending, autoforward, finalize, #_<invokeid>, exit and re-entry) with randomised blocking steps and waits on the ThreadSanitizer build")
+                            "x 1-5 external events, both engines, ASan build; non-trivial = invocations started; plus 9 parent/child scenarios with real child sessions (child finishing at once / on request / never, "
+                            "a child that keeps sending, autoforward, finalize, #_<invokeid>, exit and re-entry, a child with an invocation of its own) with randomised blocking steps and waits on the ThreadSanitizer build")
     ctx.assumptions += ["the exits/entries/stable-configuration notices of the monitor trace are taken as the history the bookkeeping reacts to (they are what C13 checks for nesting and completeness)"]
 
 
